@@ -31,6 +31,7 @@ def run(rep):
     if not hits:
         return
     q, st = hits[0]
+    st = E.flatten(st)
     f = crate.fns[q]
     where = f"{crate.relfile(f['file'])} fn {f['name']} (template at {st[1]})"
     txt = E.tmpl_text(st)
